@@ -315,8 +315,29 @@ func init() {
 			r := g.r
 			o := tableOpts{alpha: alphaPlain, parts: 2, maxCols: 3, maxRows: 4, postAdd: true}
 			t := g.buildTable(o)
-			g.do("leftdomain") // what follows is outside every property's domain: differences are recorded, not reported
 			ti := idOf(t)
+			// a hand-assembled decoration, registered under a name, on the table as it is and on a column-less one:
+			// no rectangle is promised, totality is (C09 speaks of every registered decoration)
+			{
+				var d decoration.Decoration
+				fs := decorFields(&d)
+				for i := range fs {
+					if r.chance(1, 4) {
+						*fs[i] = r.pick([]string{"|", "-", "+", "#"})
+					}
+				}
+				name := fmt.Sprintf("raw-%d", c%7)
+				g.do("register " + hx(name) + " " + showDecor(d))
+				if res := g.do("autorender " + t + " " + hx(name)); res == "PANIC" {
+					return []string{"auto.Render under a registered hand-assembled decoration panicked: " + lastPanic}, nil, true
+				}
+				e := g.do("newtable")
+				g.do("addrowitems " + e + " []")
+				if res := g.do("autorender " + e + " " + hx(name)); res == "PANIC" {
+					return []string{"auto.Render of a column-less table under a registered hand-assembled decoration panicked: " + lastPanic}, nil, true
+				}
+			}
+			g.do("leftdomain") // what follows is outside every property's domain: differences are recorded, not reported
 			n := g.ncols(t)
 			for i := 0; i < 1+r.n(2); i++ {
 				g.do(fmt.Sprintf("setprop c:%d:%d align %s", ti, r.n(n+1), r.pick([]string{"a99999", "u5", "b1", "a1", "a3"})))
